@@ -34,6 +34,19 @@ func SelfTest() (passed []string, err error) {
 		return passed, fail("sm3-abcd16", g, "debe9ff9…")
 	}
 	passed = append(passed, "sm3:abcd*16")
+	{ // streaming form == one-shot form
+		st := NewSM3Stream()
+		var all []byte
+		for i := 0; i < 40; i++ {
+			chunk := bytes.Repeat([]byte{byte(i*7 + 1)}, (i*37)%131)
+			st.Write(chunk)
+			all = append(all, chunk...)
+			if !bytes.Equal(st.Sum(nil), SM3(all)) {
+				return passed, fail("sm3-stream", i, "equal to one-shot")
+			}
+		}
+		passed = append(passed, "sm3:stream==oneshot")
+	}
 	// SM4 (GM/T 0002 Annex A)
 	key := unhex("0123456789abcdeffedcba9876543210")
 	ct := SM4EncryptBlock(key, key, nil)
